@@ -56,6 +56,9 @@ theorem loadStepG_plain (buf : Bytes) (x : XTable) (n : Nat) (acc : Outcome (LOb
             simp only
             split
             · simp only [plainDec]
+              by_cases hf : d.has FILTER = true
+              · simp only [hf, if_true]
+              · simp only [hf, Bool.false_eq_true, if_false]
             · rfl
           | plain o =>
             cases o with
